@@ -19,3 +19,17 @@ PENDING = {
  "C10": "check under construction in this session (loopback farm not yet built)",
  "C11": "check under construction in this session (loopback farm not yet built)",
 }
+
+CHECKS.update({
+ "C03": ("fault_enumeration", "datagram-class sequence enumeration against an acceptance automaton (hooked layer + real sockets against a loopback controller farm)",
+         "All sequences of datagram classes up to length 2 (quick) / 3 (thorough) on real broadcast / connected-UDP / TCP sockets against a scripted farm (6 operations, every valid-looking datagram carries a unique marker), all sequences up to length 3/4 for all 31 operations through the in-memory driver, random sequences up to length 8; the observed outcome and marker are compared with a 20-line acceptance automaton.",
+         "loopback stands in for the network; per-write framing on TCP", "§4 C03"),
+ "C06": ("exploration", "arrival log of a loopback controller farm + driver-hook log against the routing rule",
+         "Generated client configurations x all operations: the farm (paired UDP/TCP controller endpoints + broadcast endpoint) logs every arrival with transport, source address and bytes; exactly one arrival at the endpoint the routing rule names, from the bind address, reference bytes, silence elsewhere; the hooked layer decides the unset default broadcast address.",
+         "reception at 255.255.255.255:60000 cannot be observed in the sandbox: decided at the driver hook", "§4 C06"),
+ "C08": ("exploration", "Go race detector + echo oracle over recorded call/farm events + porcupine linearizability check",
+         "Plans of up to 32 goroutines x mixed operations with unique ids on 1-3 clients (UDP/TCP/broadcast, bind port 0 and fixed, overlapping bind addresses), farm reply delays from {0,1ms,0.3T,0.7T}, discovery and listener stop-under-traffic alongside; every call judged against echo(own request) when the farm measurably answered in time; served-in-turn scenario; porcupine on PutCard/GetCardByID/DeleteCard histories; -race batches at GOMAXPROCS 4/16 (2/4/8/16 thorough).",
+         "race detector sees only executed accesses; schedules perturbed, not enumerated", "§4 C08"),
+})
+for k in ("C03","C06","C08"):
+    PENDING.pop(k, None)
